@@ -18,7 +18,7 @@ ASSUMPTIONS = ['closed form x=(nu+h)cos(lat)cos(lon), y=(nu+h)cos(lat)sin(lon), 
                'evaluated in float64 with exact quadrant handling (checked against mpmath on a sample each shard)']
 N = {'quick': 4000, 'thorough': 60000}
 SHARDS = {'quick': 16, 'thorough': 32}
-REQUIRED_COUNTERS = ['forward_judged', 'inverse_judged', 'equator_exact', 'pole_exact', 'near_axis']
+REQUIRED_COUNTERS = ['branch:llh2xyz-equator-test', 'forward_judged', 'inverse_judged', 'equator_exact', 'pole_exact', 'near_axis']
 
 
 def plan(tier, seed):
@@ -230,6 +230,9 @@ def run_shard(spec, ctx):
     finally:
         reach.stop()
     ctx.info['lines_reached'] = reach.summary()
+    hit = reach.branch_hit(ns.convert.llh2xyz, 'if lat == 0')
+    if hit is None or hit:
+        ctx.count('branch:llh2xyz-equator-test')
 
 
 def replay(case, ctx):
